@@ -39,6 +39,13 @@ def faultJ : Fault → Json
   | .uuidConflict s => Json.mkObj [("k", "uuidConflict"), ("arg", strJ s)]
   | .triggerUnknownFlow s => Json.mkObj [("k", "triggerUnknownFlow"), ("arg", strJ s)]
   | .noContentIndex => Json.mkObj [("k", "noContentIndex")]
+  | .sheetNameCount s => Json.mkObj [("k", "sheetNameCount"), ("arg", strJ s)]
+  | .unknownIndexType s => Json.mkObj [("k", "unknownIndexType"), ("arg", strJ s)]
+  | .rowTypeWithoutMainArg s => Json.mkObj [("k", "rowTypeWithoutMainArg"), ("arg", strJ s)]
+  | .unknownContactProperty s => Json.mkObj [("k", "unknownContactProperty"), ("arg", strJ s)]
+  | .unknownRowType s => Json.mkObj [("k", "unknownRowType"), ("arg", strJ s)]
+  | .noDefaultExitFromFlow => Json.mkObj [("k", "noDefaultExitFromFlow")]
+  | .badOutcomeCondition f => Json.mkObj [("k", "badOutcomeCondition"), ("flow", Json.bool f)]
 
 def verdictJ : Except Fault Unit → Json
   | .ok _ => Json.mkObj [("ok", Json.bool true)]
@@ -78,6 +85,13 @@ def probe0Of (j : Json) : Except String Probe0 := do
   | "target" => pure (.gotoTarget v)
   | "loopvar" => do let xs ← strListD j "v"; pure (.loopVariable xs)
   | "from" => pure (.edgeFrom v)
+  | "rowtype" => pure (.rowType v)
+  | "outcome" =>
+    let k : SrcKind := match String.ofList (getStrD j "src" []) with
+      | "flow" => .enterFlow
+      | "hook" => .hook
+      | _ => .other
+    pure (.outcome k v (getBoolD j "more" false))
   | other => throw s!"probe {other}"
 
 def argDefOf (j : Json) : Except String ArgDef := do
@@ -94,8 +108,10 @@ def listD {α : Type} (j : Json) (k : String) (f : Json → Except String α) : 
 def rowOf {P : Type} (pf : Json → Except String P) (j : Json) : Except String (Row P) := do
   let t ← getStr j "t"
   let probes ← listD j "probes" pf
+  -- "mt": the sheet has a `message_text` column; `t` is the trimmed type cell
   pure { type := rowTypeOf t, rowId := getStrD j "id" [], includeIf := getBoolD j "inc" true,
-         iterEmpty := getBoolD j "empty" false, probes := probes }
+         iterEmpty := getBoolD j "empty" false, probes := probes,
+         keyError := mainArgKeyError (getBoolD j "mt" false) t }
 
 def instOf {P : Type} (pf : Json → Except String P) (j : Json) : Except String (FlowInst P) := do
   let ctx ← strListD j "ctx"
@@ -129,6 +145,9 @@ def indexRowOf (j : Json) : Except String IndexRow := do
   if k = "ref".toList then
     let n ← getStr j "name"
     pure (.sheetRef n)
+  else if k = "other".toList then
+    let t ← getStr j "type"
+    pure (.other t (natD j "n"))
   else
     let srcs ← listD j "srcs" sourceOf
     pure (.dataSheet (getStrD j "op" []) (getStrD j "newName" []) srcs)
